@@ -29,7 +29,13 @@ SENTINEL = 1.0e30
 
 def coords_of(grid):
     """physical coordinate of every data index, array of shape data_shape + (dim,) -- from data_axes, not data_points"""
-    if isinstance(grid, fm.UnstructuredPoints) or not hasattr(grid, "data_axes"):
+    if isinstance(grid, fm.UnstructuredGrid) and grid.data_location == fm.Location.CELLS:
+        # cell centres computed here from the cell definitions (mean of the nodes of each cell, padding ignored)
+        nn = {int(fm.CellType.TRI): 3, int(fm.CellType.QUAD): 4, int(fm.CellType.LINE): 2, int(fm.CellType.VERTEX): 1,
+              int(fm.CellType.TETRA): 4, int(fm.CellType.HEX): 8}
+        pts = np.asarray(grid.points)
+        return np.array([pts[np.asarray(c)[: nn[int(t)]]].mean(axis=0) for c, t in zip(grid.cells, grid.cell_types)])
+    if isinstance(grid, (fm.UnstructuredPoints, fm.UnstructuredGrid)) or not hasattr(grid, "data_axes"):
         return np.asarray(grid.data_points).reshape(tuple(grid.data_shape) + (grid.dim,))
     axes = grid.data_axes                       # one axis per data dimension, in data order
     shape = tuple(len(a) for a in axes)
@@ -70,6 +76,12 @@ def sources(rng, thorough):
     yield "rectilinear irregular rev C", fm.RectilinearGrid([np.array([0.0, 0.7, 2.0, 2.4]), np.array([0.0, 1.5, 1.9])], order="C", axes_reversed=True)
     pts = np.array([[0.1, 0.2], [2.3, 0.1], [1.2, 1.7], [0.4, 1.1], [2.0, 1.4], [1.1, 0.6], [2.9, 1.9]])
     yield "unstructured points", fm.UnstructuredPoints(pts)
+    # mixed mesh: one quad and three triangles (cells of fewer nodes are padded with -1)
+    mp = np.array([[0.0, 0.0], [1.5, 0.0], [1.5, 1.2], [0.0, 1.2], [3.0, 0.3], [3.2, 1.9], [1.4, 2.4], [0.1, 2.2]])
+    mc = np.array([[0, 1, 2, 3], [1, 4, 2, -1], [4, 5, 2, -1], [3, 2, 6, -1]])
+    mt = np.array([fm.CellType.QUAD, fm.CellType.TRI, fm.CellType.TRI, fm.CellType.TRI])
+    yield "unstructured mixed cells", fm.UnstructuredGrid(points=mp, cells=mc, cell_types=mt, data_location=fm.Location.CELLS)
+    yield "unstructured mixed cells, point data", fm.UnstructuredGrid(points=mp, cells=mc, cell_types=mt, data_location=fm.Location.POINTS)
 
 
 def targets(thorough):
@@ -156,7 +168,7 @@ def check_linear(rng, thorough, stats, viol):
     for (sn, sg), (tn, tg) in itertools.product(srcs, tgts):
         sshape, tshape = tuple(sg.data_shape), tuple(tg.data_shape)
         sxy, txy = coords_of(sg), coords_of(tg)
-        unstructured = isinstance(sg, fm.UnstructuredPoints)
+        unstructured = isinstance(sg, (fm.UnstructuredPoints, fm.UnstructuredGrid))
         for smn, smask, sm in masks_for(rng, sshape, 1):
             if not unstructured and smn == "none":
                 continue        # structured unmasked sources take the RegularGridInterpolator path (outside the property)
